@@ -67,6 +67,7 @@ def errStr : ErrKind → String
   | .keyError => "KeyError"
   | .unknownEvent => "UnknownEvent"
   | .assertion => "AssertionError"
+  | .invalidState => "InvalidState"
   | .fuel => "Fuel"
 
 def resStr : Res → String
